@@ -680,14 +680,21 @@ async fn load_root<R: AsRef<[u8]>>(
     // Used in step 1.2
     let original_root_version = root.signed.version.get();
 
-    // Used in step 1.9
-    let original_timestamp_keys = root
-        .signed
+    // Used in step 1.9: the root that was trusted at the end of the previous update cycle, if it
+    // was recorded in the datastore, and the shipped root otherwise.
+    let previous_root = match datastore
+        .bytes("root.json")
+        .await?
+        .map(|b| serde_json::from_slice::<Signed<Root>>(&b))
+    {
+        Some(Ok(previous_root)) => previous_root.signed,
+        _ => root.signed.clone(),
+    };
+    let original_timestamp_keys = previous_root
         .keys(RoleType::Timestamp)
         .cloned()
         .collect::<Vec<_>>();
-    let original_snapshot_keys = root
-        .signed
+    let original_snapshot_keys = previous_root
         .keys(RoleType::Snapshot)
         .cloned()
         .collect::<Vec<_>>();
@@ -823,6 +830,9 @@ async fn load_root<R: AsRef<[u8]>>(
         let r2 = datastore.remove("snapshot.json").await;
         r1.and(r2)?;
     }
+    // Remember the root we now trust, so that the next update cycle detects key rotations relative
+    // to it rather than relative to the (possibly much older) root shipped with the application.
+    datastore.create("root.json", &root).await?;
 
     // 1.10. Set whether consistent snapshots are used as per the trusted root metadata file (see
     //   Section 4.3).
